@@ -345,10 +345,20 @@ func init() {
 		},
 		"strings.ToLower": func(e *Engine, _ *frame, _ token.Pos, a []Value) Value {
 			s, ok := a[0].(string)
-			if !ok {
-				panic(unsupported("strings.ToLower of a symbolic string"))
+			if ok {
+				return strings.ToLower(s)
 			}
-			return strings.ToLower(s)
+			// symbolic bytes: ASCII only (a byte that can be >= 0x80 is outside the model)
+			bs := strBytes(a[0])
+			out := make([]*term.T, len(bs))
+			for i, b := range bs {
+				if !e.branch(term.Ult(b, term.Const(8, 0x80)), "ascii") {
+					panic(unsupported("strings.ToLower of a symbolic non-ASCII byte"))
+				}
+				upper := term.BAnd(term.Ule(term.Const(8, 'A'), b), term.Ule(b, term.Const(8, 'Z')))
+				out[i] = term.Ite(upper, term.Add(b, term.Const(8, 32)), b)
+			}
+			return mkStr(out)
 		},
 		"github.com/akalin/gopar/gf2p16.castTToByteSlice":           castTToByte,
 		"github.com/akalin/gopar/gf2p16.castByteToTSlice":           castByteToT,
